@@ -1,8 +1,8 @@
 (* C01 — valid confidence regions imply an eps-accurate Pareto set (PaVeBa family, Auer), for
    every history of region assignments. *)
 From Coq Require Import QArith List Bool Arith.
-From VOPy Require Import QVec Cone Rect RectCover Spec Guarantee GuaranteeInst AlgoRefine AlgoProps.
-From VOPyGen Require Import Gen_algos.
+From VOPy Require Import QVec Cone Rect RectCover Spec Guarantee GuaranteeInst AlgoRefine AlgoProps Tables AuerRefine.
+From VOPyGen Require Import Gen_algos Gen_auer.
 Import ListNotations.
 Open Scope nat_scope.
 
@@ -80,3 +80,9 @@ Proof.
   - exact (bigR_irrefl W aeps mu H1 H2 H3).
 Qed.
 Print Assumptions C01_truth_relations_are_admissible.
+
+(* the Auer round the guarantee speaks about IS the round regenerated from vopy/algorithms/auer.py *)
+Theorem C01_auer_regenerated_is_reference : forall A st,
+  auer_compose A st = au_round (a_dom A) (a_cov A) (a_hold A) st.
+Proof. exact auer_round_refines. Qed.
+Print Assumptions C01_auer_regenerated_is_reference.
